@@ -208,20 +208,20 @@ pub fn keyword_value() -> BoxedStrategy<String> {
   select(KEYWORDS.to_vec()).prop_map(|s| s.to_string()).boxed()
 }
 
-pub fn i64_value() -> BoxedStrategy<i64> {
+pub fn i64_value(extremes: bool) -> BoxedStrategy<i64> {
   prop_oneof![
     10 => -3i64..8,
     2 => select(vec![0i64, 1, -1, 1000, -1000, 1_700_000_000_000]),
-    1 => select(vec![i64::MAX, i64::MIN, i64::MAX - 1, 9_007_199_254_740_993]),
+    1 => select(if extremes { vec![i64::MAX, i64::MIN, i64::MAX - 1, 9_007_199_254_740_993] } else { vec![12i64, -12, 100] }),
   ]
   .boxed()
 }
 
-pub fn f64_value() -> BoxedStrategy<f64> {
+pub fn f64_value(extremes: bool) -> BoxedStrategy<f64> {
   prop_oneof![
     8 => (-6i32..16).prop_map(|v| v as f64 * 0.5),
     2 => select(vec![0.0f64, -0.0, 0.1, 0.30000000000000004, 1e-9, 2.5e10, -7.25]),
-    1 => select(vec![1e300, -1e300, f64::MIN_POSITIVE, 123456789.125]),
+    1 => select(if extremes { vec![1e300, -1e300, f64::MIN_POSITIVE, 123456789.125] } else { vec![123456789.125, -99.5, 0.75] }),
   ]
   .boxed()
 }
@@ -244,11 +244,13 @@ pub struct DocOpts {
   pub max_nested_objs: usize,
   /// allow null members inside arrays of nullable nested fields
   pub null_items: bool,
+  /// allow extreme numeric values (i64::MAX, 1e300, ...)
+  pub extremes: bool,
 }
 
 impl Default for DocOpts {
   fn default() -> Self {
-    DocOpts { text: TextOpts { max_words: 8, odd: true, vocab: 30 }, max_multi: 3, absent: 2, max_nested_objs: 3, null_items: true }
+    DocOpts { text: TextOpts { max_words: 8, odd: true, vocab: 30 }, max_multi: 3, absent: 2, max_nested_objs: 3, null_items: true, extremes: true }
   }
 }
 
@@ -280,11 +282,11 @@ fn kw_field_value(o: DocOpts) -> BoxedStrategy<Value> {
 }
 fn num_field_value(i: bool, o: DocOpts) -> BoxedStrategy<Value> {
   if i {
-    multi(i64_value(), |v| json!(v), o.max_multi)
+    multi(i64_value(o.extremes), |v| json!(v), o.max_multi)
   } else {
     // f64 fields also accept integer JSON numbers
     prop_oneof![
-      8 => multi(f64_value(), |v| json!(v), o.max_multi),
+      8 => multi(f64_value(o.extremes), |v| json!(v), o.max_multi),
       1 => (-5i64..5).prop_map(|v| json!(v)),
     ]
     .boxed()
